@@ -57,7 +57,33 @@ func stepOf(p refsn.Pkt) string {
 	return ""
 }
 
-// dropAll: "" = fault choices within the budget; otherwise every gateway->client datagram of that step is dropped
+// c16patterns: per exchange step (register, publish, release), a gateway->client datagrams are lost first and
+// then b acknowledgements of the client, a+b <= RetryCount: every combination over the three steps.  A loss in
+// one step must not eat the budget of the next one.
+type c16pattern [3][2]int
+
+func c16patterns(budget int) []c16pattern {
+	var pairs [][2]int
+	for a := 0; a <= budget; a++ {
+		for b := 0; a+b <= budget; b++ {
+			pairs = append(pairs, [2]int{a, b})
+		}
+	}
+	var out []c16pattern
+	for _, r := range pairs {
+		for _, p := range pairs {
+			for _, l := range pairs {
+				out = append(out, c16pattern{r, p, l})
+			}
+		}
+	}
+	return out
+}
+
+var c16steps = map[string]int{"register": 0, "publish": 1, "release": 2}
+
+// dropAll: "" = fault choices within the budget; "pattern" = one of c16patterns, chosen by the explorer;
+// otherwise every gateway->client datagram of that step is dropped
 func runC16(t *testing.T, f c16flow, dropAll string, prefix []int) explore.ExecResult {
 	res, _ := explore.Bubble(t, prefix, func(s *vsched.Sched) (string, []explore.Violation) {
 		s.NoChoice = true
@@ -79,10 +105,31 @@ func runC16(t *testing.T, f c16flow, dropAll string, prefix []int) explore.ExecR
 		dups := map[string]int{}
 		var faults []string
 		budget := int(cfg.RetryCount)
+		var pat c16pattern
+		if dropAll == "pattern" {
+			ps := c16patterns(budget)
+			s.NoChoice = false
+			pat = ps[s.Choose(len(ps), "loss pattern")]
+			s.NoChoice = true
+		}
+		seen := map[string]int{}
 		filter := func(dir string) func(p refsn.Pkt, raw []byte) [][]byte {
 			return func(p refsn.Pkt, raw []byte) [][]byte {
 				step := stepOf(p)
 				if step == "" {
+					return [][]byte{raw}
+				}
+				if dropAll == "pattern" {
+					k := 0
+					if dir == "cl->gw" {
+						k = 1
+					}
+					seen[dir+step]++
+					if seen[dir+step] <= pat[c16steps[step]][k] {
+						drops[step]++
+						faults = append(faults, "drop "+dir+" "+p.Name())
+						return nil
+					}
 					return [][]byte{raw}
 				}
 				if dropAll != "" {
@@ -127,7 +174,7 @@ func runC16(t *testing.T, f c16flow, dropAll string, prefix []int) explore.ExecR
 		s.NoChoice = true
 		var vs []explore.Violation
 		ctx := fmt.Sprintf("%s (link: %s)", f.name, strings.Join(faults, ", "))
-		if dropAll != "" {
+		if dropAll != "" && dropAll != "pattern" {
 			ctx = fmt.Sprintf("%s (link drops every gateway->client datagram of the %s step)", f.name, dropAll)
 		}
 		add := func(sig, format string, a ...any) {
@@ -170,7 +217,7 @@ func runC16(t *testing.T, f c16flow, dropAll string, prefix []int) explore.ExecR
 				add("more-retransmissions-than-budget:"+step, "%d transmissions of the %s step, RetryCount %d", n, step, budget)
 			}
 		}
-		if dropAll != "" {
+		if dropAll != "" && dropAll != "pattern" {
 			if count[dropAll] != budget+1 {
 				add(fmt.Sprintf("unanswered-step-transmissions:%s:%d", dropAll, count[dropAll]), "the gateway transmitted the unanswered %s step %d times, want exactly 1 + RetryCount = %d and then stop", dropAll, count[dropAll], budget+1)
 			}
@@ -230,9 +277,10 @@ func names(ds []stack.Dgram) []string {
 }
 
 func TestC16(t *testing.T) {
-	var scs, over []explore.Scenario
+	var scs, over, pats []explore.Scenario
 	for _, f := range c16flows() {
 		f := f
+		pats = append(pats, explore.Scenario{Name: f.name + ": loss counts per step", Run: func(p []int) explore.ExecResult { return runC16(t, f, "pattern", p) }})
 		scs = append(scs, explore.Scenario{Name: f.name, Run: func(p []int) explore.ExecResult { return runC16(t, f, "", p) }})
 		for _, step := range []string{"register", "publish", "release"} {
 			if (step == "register" && f.topic != "w/n") || (step == "release" && f.qos != 2) {
@@ -243,13 +291,16 @@ func TestC16(t *testing.T) {
 		}
 	}
 	if explore.IsWorker() {
-		explore.ServeScenarios(append(scs, over...))
+		explore.ServeScenarios(append(append(scs, over...), pats...))
 		return
 	}
 	rep := explore.NewReport("C16", "fault_enumeration")
 	if explore.RunScenarios(rep, scs, explore.ScenarioOpts{Test: "TestC16", QuickBound: 2, ThoroughFrom: 2, ThoroughMax: 5,
 		QuickBudget: 150 * time.Second, ThoroughBudge: 12 * time.Minute}) {
 		explore.RunScenarios(rep, over, explore.ScenarioOpts{Test: "TestC16", QuickBound: 1, ThoroughFrom: 1, ThoroughMax: 2,
+			QuickBudget: 200 * time.Second, ThoroughBudge: 14 * time.Minute})
+		// bound 1 = every loss pattern under the default schedule; above: with schedule deviations
+		explore.RunScenarios(rep, pats, explore.ScenarioOpts{Test: "TestC16", QuickBound: 1, ThoroughFrom: 1, ThoroughMax: 2,
 			QuickBudget: 200 * time.Second, ThoroughBudge: 14 * time.Minute})
 	}
 	evals, _ := rep.Coverage["schedules"].(int)
@@ -259,7 +310,7 @@ func TestC16(t *testing.T) {
 	}
 	rep.Coverage["evaluations"] = evals
 	rep.Coverage["distinct_nontrivial"] = rep.Coverage["states"]
-	rep.Coverage["rule"] = "real client <-> faulty in-memory link <-> real gateway session <-> broker model (RetryCount 2, RetryDelay 1 s on both sides); the broker publishes one QoS 1 / QoS 2 message on a subscribed (registered) topic, on a new topic under a wildcard (REGISTER step) and on a short topic; each datagram in either direction is delivered, dropped or duplicated, all patterns with at most 2 deviations (thorough up to 5) in which no exchange step loses more than RetryCount datagrams; plus every flow with all gateway->client datagrams of one step lost. Oracle within the budget: handler ran (exactly once for QoS 2) under the broker's topic, the broker got PUBACK / PUBCOMP, no transaction left on either side, retransmissions repeat message id, topic id and payload, PUBLISH retransmissions carry DUP, at most RetryCount retransmissions; beyond the budget: exactly 1 + RetryCount transmissions. distinct_nontrivial = distinct (fault pattern, datagram log) outcomes"
+	rep.Coverage["rule"] = "real client <-> faulty in-memory link <-> real gateway session <-> broker model (RetryCount 2, RetryDelay 1 s on both sides); the broker publishes one QoS 1 / QoS 2 message on a subscribed (registered) topic, on a new topic under a wildcard (REGISTER step) and on a short topic; each datagram in either direction is delivered, dropped or duplicated, all patterns with at most 2 deviations (thorough up to 5) in which no exchange step loses more than RetryCount datagrams; plus every flow with all gateway->client datagrams of one step lost; plus, per flow, every combination of loss counts per exchange step (a gateway datagrams then b client acknowledgements lost, a+b <= RetryCount, for each of the REGISTER, PUBLISH and PUBREL steps: 216 patterns), so that losses in one step are followed by the full budget of losses in the next. Oracle within the budget: handler ran (exactly once for QoS 2) under the broker's topic, the broker got PUBACK / PUBCOMP, no transaction left on either side, retransmissions repeat message id, topic id and payload, PUBLISH retransmissions carry DUP, at most RetryCount retransmissions; beyond the budget: exactly 1 + RetryCount transmissions. distinct_nontrivial = distinct (fault pattern, datagram log) outcomes"
 	rep.Assumptions = []string{"thread schedule: deviation-bounded together with the fault choices", "a duplicate arrives right after the original", "the broker model is lossless (TCP)"}
 	rep.Finish()
 }
